@@ -292,6 +292,12 @@ func BuildWorld(s Schema, indexes map[string][]model.ClientIndex) (*World, error
 				Tag:  reflect.StructTag(fmt.Sprintf(`ovsdb:"%s"`, c.Name)),
 			})
 		}
+		// reflect.StructOf returns identical types for identical field lists, but libovsdb
+		// keys its metadata by model type: give every table its own type through a
+		// trailing zero-size marker field (untagged, so the mapper ignores it)
+		fields = append(fields, reflect.StructField{
+			Name: "XTable" + sanitizeIdent(t.Name), Type: reflect.TypeOf(struct{}{}), Tag: `json:"-"`,
+		})
 		st := reflect.StructOf(fields)
 		w.Types[t.Name] = reflect.PointerTo(st)
 		models[t.Name] = reflect.New(st).Interface()
@@ -328,6 +334,10 @@ func atomFromGo(t AT, v reflect.Value) Atom {
 	case TStr:
 		return Str(v.String())
 	default:
+		// an unset scalar uuid field is "" natively; RFC 7047's default is the all-zero uuid
+		if v.String() == "" {
+			return UUID(ZeroUUID)
+		}
 		return UUID(v.String())
 	}
 }
@@ -606,4 +616,16 @@ func SortedUUIDs(t Rows) []string {
 	}
 	sort.Strings(us)
 	return us
+}
+
+func sanitizeIdent(s string) string {
+	out := []rune{}
+	for _, r := range s {
+		if (r >= 'a' && r <= 'z') || (r >= 'A' && r <= 'Z') || (r >= '0' && r <= '9') || r == '_' {
+			out = append(out, r)
+		} else {
+			out = append(out, '_')
+		}
+	}
+	return string(out)
 }
